@@ -150,8 +150,9 @@ def s4(chk: Check, proj: Project, m, f) -> None:
         raise AnalysisError("parse_template: hand-over test not found")
     t = ifs[0].test
     atoms = flatten_conj([(t, True)])
-    is_block = [a for a, pol in atoms if pol and isinstance(a, ast.Compare) and norm(a).endswith(".token_type == TokenType.BLOCK")]
-    quote = [a for a, pol in atoms if pol and isinstance(a, ast.BoolOp) and isinstance(a.op, ast.Or) and {norm(v) for v in a.values} == {norm(ast.parse("\"'\" in token.contents", mode="eval").body), norm(ast.parse("'\"' in token.contents", mode="eval").body)}]
+    loopv = next((norm(a.target) for a in ancestors(ifs[0]) if isinstance(a, ast.For)), "token")
+    is_block = [a for a, pol in atoms if pol and isinstance(a, ast.Compare) and norm(a) == f"{loopv}.token_type == TokenType.BLOCK"]
+    quote = [a for a, pol in atoms if pol and isinstance(a, ast.BoolOp) and isinstance(a.op, ast.Or) and {norm(v) for v in a.values} == {norm(ast.parse(f"\"'\" in {loopv}.contents", mode="eval").body), norm(ast.parse(f"'\"' in {loopv}.contents", mode="eval").body)}]
     extra = [a for a, pol in atoms if not any(a is x for x in is_block + quote)]
     key = "util.template_parser:parse_template:hand-over-condition"
     if extra:
@@ -198,12 +199,14 @@ def s5(chk: Check, proj: Project) -> None:
     chk.floor("S5", n_sites, 2)
     # escape pair
     pm, pf = proj.func("util.template_parser", "_compile_take_until_pattern")
-    pats = [n for n in body_walk(pf) if isinstance(n, ast.Assign) and norm(n.targets[0]) == "pattern"]
+    retv = next((a.id for r in ast.walk(pf) if isinstance(r, ast.Return) and isinstance(r.value, ast.Call) for a in r.value.args if isinstance(a, ast.Name)), "pattern")
+    pats = [n for n in body_walk(pf) if isinstance(n, ast.Assign) and norm(n.targets[0]) == retv]
+    esc_var = next((n.targets[0].id for n in body_walk(pf) if isinstance(n, ast.Assign) and isinstance(n.targets[0], ast.Name) and "re.escape" in norm(n.value)), "escaped_stops")
     esc_pat = None
     for a in pats:
         at = cond_atoms(a)
         if any(pol and t == "allow_escapes" for t, pol in at):
-            okf, v = proj.try_fold(pm, a.value, {"escaped_stops": "'"})
+            okf, v = proj.try_fold(pm, a.value, {esc_var: "'"})
             if okf:
                 esc_pat = v
     if esc_pat is None:
